@@ -98,6 +98,9 @@ F_JOB, F_PS, F_S = 'job.py', 'purescheduler.py', 'scheduler.py'
 c = contract('AbstractJob._set_sched_id', F_JOB).param('self').param('start', 'int').param('id_format', 'str') \
     .returns('int')
 c.for_props('C15', 'C20')
+c.assumed = ['A-FMT: template.format(n) is a deterministic function FMT1(template, n) of its two arguments; that it is '
+             'injective in n for the zero-padded templates "{:0wd}" (so that distinct numbers give distinct ids) is assumed',
+             'ghost $idnum: the integer formatted into _sched_id, updated mechanically at every store of _sched_id']
 c.requires('self-is-a-job', lambda c: And(isa['AbstractJob'](c.a.self), c.pre.alive(c.a.self)))
 c.modifies('_sched_id', '$idnum')
 c.ensures('next-index', lambda c: c.result == c.a.start + 1)
